@@ -261,3 +261,31 @@ pub fn longruns(ctx: &Ctx) -> Stats {
     }
     st
 }
+
+/// gaps of identical ambiguous bytes of every length 0..=140 (and around 255..258) between two clean
+/// stretches, for several k: "fast-forward" style handling of ambiguous runs must not depend on the gap length
+pub fn gaps(ctx: &Ctx) -> Stats {
+    let mut st = Stats::new();
+    let lens: Vec<usize> = (0..=140).chain(250..=260).chain([511, 512, 513, 1023, 1024, 1025]).collect();
+    let mut i = 0u64;
+    for &k in &[1usize, 2, 5, 16, 31] {
+        for &gap in &lens {
+            for &amb in &[b'N', b'-', 0x80u8] {
+                i += 1;
+                let mut rng = Rng::keyed(ctx.seed, "c01.gaps", i);
+                let mut seq: Vec<u8> = (0..k + rng.usize(0, 3)).map(|_| *rng.pick(b"ACGT")).collect();
+                seq.extend(std::iter::repeat(amb).take(gap));
+                seq.extend((0..k + rng.usize(0, 5)).map(|_| *rng.pick(b"ACGTacgu")));
+                st.case(true, mix(i));
+                if let Some((sig, msg)) = check(&seq, k) {
+                    st.violate(&format!("{}:gap", sig), format!("gap of {} x 0x{:02x}: {}", gap, amb, msg), case_json(&seq, k));
+                }
+                if i % 401 == 3 {
+                    st.sample(Json::obj().set("k", Json::u(k)).set("gap_len", Json::u(gap)).set("gap_byte", Json::s(format!("0x{:02x}", amb))));
+                }
+            }
+        }
+    }
+    st.set_extra("gap_lengths", Json::s("0..=140, 250..=260, 511..513, 1023..1025"));
+    st
+}
